@@ -28,7 +28,7 @@ CHECKS = {
             '(M) history refinement with refused operations as the error paths; trusted base: refmodel/tlb.py, refmodel/rcell.py',
             'deterministic simulation: limit-aimed seeded histories vs executable reference model'),
     'C08': ('POOL', 'worlds/pool.py', 'exploration', '6 C08',
-            'K interleaved callers over a shared cell arena; after every step every live cell equals its creation snapshot, arguments are untouched, repeated reads agree; after the run each caller log equals its solo replay (non-interference)',
+            'K interleaved callers over a shared cell arena; after every step every live cell equals its creation snapshot, arguments are untouched, repeated reads agree; after the run each caller log equals its solo replay (non-interference); callers go on using what the library returned (order() dicts as accumulators, from_boc lists as work lists)',
             '(S) the scheduler owns the caller interleaving and hidden process state; the library is compared with itself, no reference hash involved',
             'deterministic simulation: seeded caller interleavings with snapshot invariants and solo-replay non-interference'),
     'C09': ('DICT', 'worlds/dict.py', 'exploration', '6 C09',
@@ -40,19 +40,19 @@ CHECKS = {
             '(S) Byzantine prover + faulty transport; trusted base: refmodel RCell/BoC/hashmap and the synthetic block/state builders',
             'deterministic simulation: Byzantine prover and transport faults vs reference verifier'),
     'C12': ('CHAIN', 'worlds/chain.py', 'exploration', '6 C12',
-            'validators sign over a lossy/duplicating/reordering net with Byzantine signers; the collected multiset is judged by the statement model (distinct valid known signers, strict > 2/3)',
+            'validators sign over a lossy/duplicating/reordering net with Byzantine signers; the collected multiset is judged by the statement model (distinct valid known signers, strict > 2/3); validator rotation, sibling-block replays incl. one identifier object advanced in place, validator_addr sets with signatures filed under ADNL addresses',
             '(S) network faults + Byzantine validators; Ed25519 from PyNaCl is trusted',
             'deterministic simulation: faulty signature-collection network vs acceptance model'),
     'C13': ('WIRE', 'worlds/wire.py', 'fault_enumeration', '6 C13',
-            'text channel: every workchain x 8 variants round trip; per sampled address and variant all 48x63 single-character substitutions must be rejected',
+            'text channel: every workchain x 8 variants round trip; per sampled address and variant all 48x63 single-character substitutions must be rejected; address objects obtained by eight routes (incl. anycast carriers, objects used as cursors), related addresses in one process, engineered checksums',
             '(S) symbol faults in a medium; CRC-16 burst detection argument in DESIGN 6/C13; reference CRC-16 bitwise',
             'deterministic simulation: exhaustive symbol-substitution enumeration per seeded address'),
     'C14': ('TL', 'worlds/tl.py', 'exploration', '6 C14',
-            'all 6 schema-directory orders x every in-domain constructor x seeded values; reference TL codec taps the wire both ways',
+            'all 6 schema-directory orders x every in-domain constructor x seeded values; reference TL codec taps the wire both ways; bare/by-name argument forms, embedded objects, sender and receiver keep using the values, block-id helpers incl. edited dicts and identifiers advanced in place',
             '(M)/(E) environment seam os.listdir; trusted base: refmodel/tl.py',
             'deterministic simulation: directory-order seam + peer frames vs reference TL codec'),
     'C17': ('VM', 'worlds/vm.py', 'exploration', '6 C17',
-            'repeated serialize/deserialize histories on caller-held stacks with deep snapshots and a reference VmStack encoder',
+            'repeated serialize/deserialize histories on caller-held stacks with deep snapshots and a reference VmStack encoder; the caller moves on with / edits its values in place between serialisations',
             '(M) fault-free histories; trusted base: refmodel/vm.py',
             'deterministic simulation: repeated-call histories vs reference encoder and snapshots'),
     'C19': ('WORK', 'worlds/work.py', 'exploration', '6 C19',
@@ -60,7 +60,7 @@ CHECKS = {
             '(S) simulated time is the only clock; budgets documented in DESIGN 6/C19',
             'deterministic simulation: step-clock budgets under adversarial inputs'),
     'C20': ('ADNL', 'worlds/adnl.py', 'exploration', '6 C20',
-            'two real peers over a lossy/duplicating/reordering/bit-flipping datagram net; entropy seam for keys and mnemonics',
+            'two real peers over a lossy/duplicating/reordering/bit-flipping datagram net; entropy seam for keys and mnemonics (biased streams, scripted valid phrases, dry spells of k known-invalid candidates, password argument form)',
             '(S) network faults + entropy seam; AES/Ed25519/X25519 primitives trusted',
             'deterministic simulation: faulty datagram net between two real peers + entropy seam'),
 }
